@@ -274,14 +274,9 @@ func quotedQualifierParser(prefix string) pars.Parser {
 		}
 		state.Drop()
 		pars.EOL(state, pars.Void)
-		token := result.Token
-		i := bytes.Index(token, p)
-		for i >= 0 {
-			n := copy(token[i+1:], token[i+len(p):])
-			token = token[:i+1+n]
-			i = bytes.Index(token, p)
-		}
-		result.SetToken(token)
+		// Take the indent off every continuation line, once: a line of the
+		// value may itself start with blanks.
+		result.SetToken(bytes.Replace(result.Token, p, p[:1], -1))
 		return nil
 	}
 }
